@@ -35,9 +35,58 @@ pub fn build_case(property: &str, kind: &str, t: &mut Tape, cfg: &gen::GenCfg, d
     Some((case, rr, prog, printed))
 }
 
+// The same few operations repeated 300 .. 70000 times (calls, appends, string
+// building, closure creation, interpolation, comparisons with writes in
+// between, key insertion): behaviour must not depend on how often something
+// has already happened. Expected output from the reference interpreter with
+// a raised step budget.
+fn repetition_cases(ctx: &Ctx) -> Vec<(Case, bool)> {
+    let mut out = vec![];
+    if !crate::backend::worker_available() {
+        ctx.note("in-process back-end unavailable: repetition programs skipped (their model is read back from the parser)");
+        return out;
+    }
+    let lim = interp::Limits{steps: 8_000_000, call_depth: 260, container: 100_000, range_width: 100_000, out_bytes: 4 << 20, ..interp::Limits::default()};
+    let mut push = |n: i64, name: &str, src: String| {
+        let prog = match crate::util::model_from_source(&src) { Ok(p) => p, Err(_) => { ctx.exclude("repetition program not readable"); return; } };
+        let rr = interp::run_with(&prog, &interp::Sem::default(), &lim);
+        let e = match &rr.outcome {
+            interp::Outcome::Ok => Expect::ok(rr.out.clone()),
+            interp::Outcome::Err(_) => Expect::err(rr.out.clone()),
+            interp::Outcome::Discard(w) => { ctx.exclude(&format!("repetition program outside the reference's budget ({w}): {name} x {n}")); return; },
+        };
+        ctx.label("repetition program");
+        out.push((Case{property: "C01".into(), kind: "repetition".into(), srcs: vec![src.into_bytes()], pred: Pred::Expect(e), note: format!("{name} x {n}")}, true));
+    };
+    for n in [300i64, 1000, 4096, 5000, 65546] {
+        push(n, "call in a counter loop", format!("fn f(v) {{\n    return (v * 7) % 13\n}}\ni := 0\ns := 0\nwhile i < {n} {{\n    i += 1\n    s = (s + f(i)) % 1000003\n}}\nprint(s)\nprint(i)\n"));
+        push(n, "closure made and called per turn", format!("s := 0\nfor [_, v] in 0 .. {n} {{\n    g := fn () {{\n        return v + 1\n    }}\n    s = (s + g()) % 1000003\n}}\nprint(s)\n"));
+        push(n, "method call per turn", format!("o := {{\"n\": 0, \"bump\": fn (d) {{\n    this.n = (this.n + d) % 1000003\n    return this.n\n}}}}\nlast := 0\nfor [_, v] in 0 .. {n} {{\n    last = o.bump(v)\n}}\nprint(last)\nprint(o.n)\n"));
+        push(n, "same interpolated literal per turn", format!("acc := 0\ntag := \"a\"\nfor [i, v] in 0 .. {n} {{\n    if (v % 1000) == 999 {{\n        tag = tag + \"b\"\n    }}\n    t := $\"<${{tag}}|${{$\"${{tag}}\"}}>\"\n    acc = (acc + t->len()) % 1000003\n}}\nprint(acc)\nprint(tag)\n"));
+        push(n, "comparison with a write in between, per turn", format!("a := [1, [2, 3], {{\"k\": 4}}]\nb := [1, [2, 3], {{\"k\": 4}}]\nsame := 0\ndiff := 0\nfor [_, v] in 0 .. {n} {{\n    if (v % 3) == 0 {{\n        b[1][0] = v\n    }} else {{\n        b[1][0] = 2\n    }}\n    if a == b {{\n        same += 1\n    }} else {{\n        diff += 1\n    }}\n}}\nprint([same, diff])\n"));
+        push(n, "block scopes entered per turn", format!("x := 0\nfor [_, v] in 0 .. {n} {{\n    {{\n        y := v\n        {{\n            x = (x + y) % 1000003\n        }}\n    }}\n}}\nprint(x)\n"));
+        if n <= 5000 {
+            push(n, "append per turn, then slices", format!("xs := []\nfor [_, v] in 0 .. {n} {{\n    xs += [v * 2]\n}}\nprint(xs[{}])\nprint(xs[{}:])\ns := 0\nfor [_, v] in xs {{\n    s = (s + v) % 1000003\n}}\nprint(s)\n", n - 1, n - 3));
+            push(n, "string grown per turn", format!("s := \"\"\nfor [_, v] in 0 .. {n} {{\n    s += \"é!\"\n}}\nprint(s->len())\nprint(s[{}:])\n", 3 * n - 3));
+            push(n, "element writes per turn", format!("xs := 0 .. 64\nfor [_, v] in 0 .. {n} {{\n    xs[v % 64] = xs[(v + 1) % 64] + 1\n}}\nprint(xs[0:4])\nprint(xs[63])\n"));
+        }
+        if n <= 1000 {
+            push(n, "key inserted per turn", format!("o := {{}}\nk := \"k\"\nfor [_, v] in 0 .. {n} {{\n    k = k + \"x\"\n    o[k] = v\n}}\ncnt := 0\nlast := 0\nfor [key, val] in o {{\n    cnt += 1\n    last = val\n}}\nprint([cnt, last])\nprint(o[k])\n"));
+            push(n, "functions kept in a list", format!("fs := []\nfor [_, v] in 0 .. {n} {{\n    fs += [fn () {{\n        return v * 3\n    }}]\n}}\nprint(fs[0]())\nprint(fs[{}]())\nprint(fs[{}]())\n", n / 2, n - 1));
+        }
+    }
+    // (Depth 200 already overflows the 8 MiB stack of the dev-profile binary,
+    // which is outside C02's resource precondition.)
+    for depth in [25i64, 50, 80] {
+        push(depth, "recursion depth", format!("fn down(k) {{\n    if k == 0 {{\n        return 0\n    }}\n    return 1 + down(k - 1)\n}}\nprint(down({depth}))\n"));
+    }
+    out
+}
+
 pub fn run(ctx: &Ctx) {
     ctx.set_rule("tape-decoded random programs over the documented feature set (balanced profile, ~2% sloppy choices), printed in a random layout; oracle: reference interpreter on stdout + success/failure class. Non-trivial = the run touches >= 4 of the feature classes listed under labels 'feature:*' including at least one loop or call; distinct = distinct source texts");
     ctx.replay_corpus(None);
+    ctx.judge_all(repetition_cases(ctx), Via::Cli, None);
     let cfg = gen::GenCfg::balanced();
     let big = gen::GenCfg::big();
     let n = ctx.n(60_000, 1_500_000);
